@@ -65,7 +65,7 @@ def dt_contract(K):
 
 
 COMMON_REQ = ('__CPROVER_requires(vp_plen <= 65533u && vp_dlen <= 65535u && vp_extra <= 8)\n'
-              '__CPROVER_requires(__CPROVER_is_fresh(val, sizeof(VssData_t)))\n')
+              '__CPROVER_requires(VP_VAL_FRESH(val))\n')
 HDR_REQ = ('__CPROVER_requires(VP_VSS_MODE_IS(pdu) && (vp_mode != 0u || vp_be16(VP_PB(pdu) + VP_VSS_H) == vp_plen))\n'
            '__CPROVER_requires(vp_get_bits(pdu->header, 24, 8) == 0x%02xu)\n')
 DOFF = '(VP_VSS_H + VP_VSS_PSZ)'
@@ -181,6 +181,9 @@ def get_loop(K):
 
 
 VSS_GHOSTS = (GHOSTS + 'unsigned vp_mode, vp_plen, vp_dlen;\n'
+              '/* the value union: a fresh object; in the big-endian configuration a TYPED object, because CBMC\'s big-endian memory\n'
+              ' * model cannot read back a pointer stored into the untyped bytes that is_fresh allocates */\n'
+              '#ifdef VP_TYPED_VAL\nVssData_t vp_val_obj;\n#define VP_VAL_FRESH(val) ((val) == &vp_val_obj)\n#else\n#define VP_VAL_FRESH(val) __CPROVER_is_fresh(val, sizeof(VssData_t))\n#endif\n'
               '/* bounded FALLBACK build only (-DVP_FB_ELEMS=n): values of at most n elements */\n'
               '#ifdef VP_FB_ELEMS\n#define VP_FB_REQ(w) (vp_dlen <= VP_FB_ELEMS * (w) && vp_plen <= 16u)\n#else\n#define VP_FB_REQ(w) 1\n#endif\n')
 VSS_HAVOC = HAVOC_GHOSTS + '    vp_mode = nondet_uint(); vp_plen = nondet_uint(); vp_dlen = nondet_uint();\n'
@@ -267,5 +270,5 @@ def vss_jobs(model, tier, config='le'):
                             loop_contracts=lc, owners={'post': [pid], 'safety': [pid], 'assigns': [pid, 'C16'], 'loop': [pid]},
                             clause_map=cm, function=fn, kind='vss-' + side, config=config, timeout=2400, obj_bits=10,
                             chunk=(40 if (side == 'set' and K in POINTERS and POINTERS[K][3] > 1) else None), chunk_par=4,
-                            assumptions=assume, fallback=fb))
+                            assumptions=assume, fallback=fb, extra_cc=(['-DVP_TYPED_VAL'] if config == 'be' else [])))
     return jobs
